@@ -28,11 +28,13 @@
   runtime_eq_spec_partial
   inline_eq_spec_partial
   spec_restart_witness
+  inline_eq_runtime_illformed_partial
+  inline_seq_illformed_partial
 -/
 import Genshi.Lemmas.InclErase
 import Genshi.Lemmas.InclSpec
 import Genshi.Lemmas.InclGuard
-import Genshi.Lemmas.InclIll
+import Genshi.Lemmas.InclIllSim
 import Genshi.Gen.Incl
 namespace Genshi.Props.C11
 open Genshi.Incl
@@ -220,6 +222,142 @@ theorem inline_seq_after_failure_partial (T : List Name) (files : Files) (hH : i
       have h := renderOnF_eq hH fuel c hc q
       simp only [renderSeqF, renderSeq, List.map_cons]
       rw [h.1, ih _ h.2, hrt]
+  exact key qs [] (by intro n b h; simp at h)
+
+/-! ## file sets that contain ill-formed templates
+
+`inH` asks for every file to be a well-formed template: with `auto_reload` off a statically named target is
+loaded — and parsed — while the includer is prepared, so a syntax error surfaces although the include may
+never be reached (finding C11-eager-syntax).  Without that clause (`inHW`) the two modes still differ in
+nothing else: inline mode answers like run-time mode **or raises the syntax error**; and the loader keeps,
+after a preparation that failed part-way, the templates prepared inside it (`pcT`), which answer later
+requests as before. -/
+
+theorem renderOn_eqW {T : List Name} {files : Files} (hH : inHW T files = true) (fuel : Nat)
+    (c : Cache) (hc : CacheInv T files c) (q : Req) :
+    ((renderOn .inlineM files fuel c q).1 = .err .syntaxErr ∨
+      (renderOn .inlineM files fuel c q).1 = (renderOn .runtime files fuel [] q).1) ∧
+    CacheInv T files (renderOn .inlineM files fuel c q).2 := by
+  obtain ⟨entry, kind, data⟩ := q
+  have hl := loadOKW_of_inHW hH entry kind c hc
+  simp only [renderOn, loadT]
+  cases hraw : loadRaw files entry kind with
+  | fuel => simp [hraw] at hl
+  | err e =>
+    simp only [hraw] at hl
+    simp [hl.1, hc]
+  | ok body =>
+    simp only [hraw] at hl
+    cases hli : loadInl files entry kind c with
+    | fuel => rw [hli] at hl; exact hl.elim
+    | err e =>
+      rw [hli] at hl
+      obtain ⟨he, _⟩ := hl
+      subst he
+      simp [hc]
+    | ok rr =>
+      rw [hli] at hl
+      obtain ⟨hp, hc'⟩ := hl
+      simp only [Res.map_ok, Res.bind_ok]
+      have h0 : StRel T files { St.init data with cache := [] } { St.init data with cache := rr.2 } :=
+        ⟨rfl, rfl, .nil, .nil, hc', rfl⟩
+      have := simLW (loadOKW_of_inHW hH) (textOK_of_inHW hH) (simW hH fuel) hp (.ofKind kind) (.ofKind kind) _ _
+        (Coup.ofKind (loadRaw_text (textOK_of_inHW hH) hraw) (fun hk => by subst hk; exact .inl rfl)) h0
+      rcases this with hs | hr
+      · rw [hs]; simp [hc]
+      · revert hr
+        cases renderL .runtime files (render .runtime files fuel) (Rng.ofKind kind) body { St.init data with cache := [] } <;>
+          cases renderL .inlineM files (render .inlineM files fuel) (Rng.ofKind kind) rr.1 { St.init data with cache := rr.2 } <;>
+          simp [RRel, hc]
+        · intro h; exact .inr h.symm
+        · intro h hs; exact ⟨h.symm, hs.cache⟩
+
+/-
+  Full statement (false: `eager_syntax_witness`): for every file set — ill-formed templates included —
+      renderInline files entry kind data fuel = renderRuntime files entry kind data fuel.
+  Proved under `inHW` (= `inH` without "every file is well-formed"): the two modes agree, or inline mode
+  raises the syntax error (eagerly, while preparing).
+-/
+/-- **ill-formed templates in the file set**: the only thing inline mode does differently is to raise the
+syntax error of a statically named target early -/
+theorem inline_eq_runtime_illformed_partial (T : List Name) (files : Files) (hH : inHW T files = true)
+    (entry : Name) (kind : Kind) (data : List (Name × Value)) (fuel : Nat) :
+    renderInline files entry kind data fuel = .err .syntaxErr ∨
+    renderInline files entry kind data fuel = renderRuntime files entry kind data fuel := by
+  have hc0 : CacheInv T files [] := by intro n b h; simp at h
+  have h := (renderOn_eqW hH fuel [] hc0 (entry, kind, data)).1
+  have e1 : ∀ m, (renderOn m files fuel [] (entry, kind, data)).1 =
+      (loadT m files entry kind (St.init data)).bind fun r =>
+        (renderL m files (render m files fuel) (.ofKind kind) r.1 r.2).map (·.1) := by
+    intro m
+    have hinit : ({ St.init data with cache := [] } : St) = St.init data := rfl
+    simp only [renderOn, hinit]
+    cases loadT m files entry kind (St.init data) with
+    | fuel => rfl
+    | err e => rfl
+    | ok r =>
+      simp only [Res.bind_ok]
+      cases renderL m files (render m files fuel) (Rng.ofKind kind) r.1 r.2 <;> rfl
+  rw [e1, e1] at h
+  exact h
+
+theorem renderOnF_fst (m : Mode) (files : Files) (fuel : Nat) (c : Cache) (q : Req) :
+    (renderOnF m files fuel c q).1 = (renderOn m files fuel c q).1 := by
+  unfold renderOnF
+  cases hx : (renderOn m files fuel c q).1 <;> rfl
+
+theorem renderOnF_eqW {T : List Name} {files : Files} (hH : inHW T files = true) (fuel : Nat)
+    (c : Cache) (hc : CacheInv T files c) (q : Req) :
+    ((renderOnF .inlineM files fuel c q).1 = .err .syntaxErr ∨
+      (renderOnF .inlineM files fuel c q).1 = (renderOn .runtime files fuel [] q).1) ∧
+    CacheInv T files (renderOnF .inlineM files fuel c q).2 := by
+  have h := renderOn_eqW hH fuel c hc q
+  have hf := failed_render_keeps_cache_sound hH fuel c hc q
+  refine ⟨by rw [renderOnF_fst]; exact h.1, ?_⟩
+  unfold renderOnF
+  cases hx : (renderOn .inlineM files fuel c q).1 with
+  | ok evs => exact h.2
+  | err e => exact hf
+  | fuel => exact hf
+
+/-- run-time mode keeps no prepared templates -/
+theorem renderOn_runtime_cache (files : Files) (fuel : Nat) (q : Req) : (renderOn .runtime files fuel [] q).2 = [] := by
+  obtain ⟨entry, kind, data⟩ := q
+  simp only [renderOn, loadT]
+  cases hraw : loadRaw files entry kind with
+  | fuel => rfl
+  | err e => rfl
+  | ok body =>
+    simp only [Res.map_ok, Res.bind_ok]
+    have := render_keeps_cache_runtime files fuel (.ofKind kind) body { St.init data with cache := [] }
+    cases hx : renderL .runtime files (render .runtime files fuel) (Rng.ofKind kind) body { St.init data with cache := [] } with
+    | fuel => rfl
+    | err e => rfl
+    | ok r => simp only; rw [hx] at this; exact this
+
+/-
+  Full statement (false, same witness): … answers every request like run-time mode.
+-/
+/-- any number of requests through one loader over a file set that may contain ill-formed templates, the loader
+keeping after every failure — a failed render, **a preparation that failed part-way** — what it had loaded and
+prepared up to there (`renderSeqF`): position by position inline mode answers like run-time mode or raises the
+syntax error -/
+theorem inline_seq_illformed_partial (T : List Name) (files : Files) (hH : inHW T files = true)
+    (fuel : Nat) (qs : List Req) :
+    All2 (fun a b => a = .err .syntaxErr ∨ a = b)
+      ((renderSeqF .inlineM files fuel [] qs).map (·.1)) (renderSeq .runtime files fuel [] qs) := by
+  have key : ∀ (qs : List Req) (c : Cache), CacheInv T files c →
+      All2 (fun a b => a = .err .syntaxErr ∨ a = b)
+        ((renderSeqF .inlineM files fuel c qs).map (·.1)) (renderSeq .runtime files fuel [] qs) := by
+    intro qs
+    induction qs with
+    | nil => intro c _; exact .nil
+    | cons q qs ih =>
+      intro c hc
+      have h := renderOnF_eqW hH fuel c hc q
+      simp only [renderSeqF, renderSeq, List.map_cons]
+      rw [renderOn_runtime_cache]
+      exact .cons h.1 (ih _ h.2)
   exact key qs [] (by intro n b h; simp at h)
 
 /-
@@ -600,6 +738,42 @@ example : (renderSeqF .inlineM exFail 6 [] exFailReqs).map (fun x => (x.1, x.2.m
      (.ok [.start ['d'], .start ['e'], .text ['C'], .stop ['e'], .text ['!'], .stop ['d']],
       [nB, ['c', '.', 'h', 't', 'm', 'l'], nA])] := by decide +kernel
 example : (renderOn .inlineM exFail 6 [] (nA, .markup, [(['h', '0'], .str nB)])).2 = [] := by decide +kernel
+
+def nC : Name := ['c', '.', 'h', 't', 'm', 'l']
+/-- `a.html` = `<d><xi:include href="${h0}"/></d>`, `b.html` = `<e>B</e>`,
+    `c.html` = `<e><xi:include href="b.html"/><py:if test="s0"><xi:include href="bad.html"/></py:if></e>`,
+    `bad.html` is not well-formed -/
+def exIll : Files :=
+  [[(nA, ⟨.markup, some [.elem ['d'] [.include (.dyn [.var ['h', '0']]) .markup false [] nA]]⟩),
+    (nB, ⟨.markup, some [.elem ['e'] [.text ['B']]]⟩),
+    (nC, ⟨.markup, some [.elem ['e'] [.include (.static nB) .markup false [] nC,
+                                        .cond (.var ['s', '0']) [.include (.static nBad) .markup false [] nC]]]⟩),
+    (nBad, ⟨.markup, none⟩)]]
+
+def exIllReqs : List Req :=
+  [(nA, .markup, [(['h', '0'], .str nC), (['s', '0'], .str [])]),   -- loads c.html at run time: its preparation fails after b.html
+   (nB, .markup, []),                                                -- served from what the failed preparation left
+   (nC, .markup, [(['s', '0'], .str [])])]
+
+/-- non-vacuity of `inline_eq_runtime_illformed_partial` / `inline_seq_illformed_partial`: outside `inH`, inside
+`inHW`; the first request raises the syntax error in inline mode only, when `c.html` is loaded by the
+expression-valued include and prepared: `b.html` was inlined into it — and stays prepared in the loader, beside
+the entry — before `bad.html` was met; `c.html` itself is not kept.  Run-time mode answers all three. -/
+example : inHW (matchTags exIll) exIll = true ∧ inH (matchTags exIll) exIll = false := by decide +kernel
+example : (renderSeqF .inlineM exIll 6 [] exIllReqs).map (fun x => (x.1, x.2.map (·.1))) =
+    [(.err .syntaxErr, [nB, nA]),
+     (.ok [.start ['e'], .text ['B'], .stop ['e']], [nB, nA]),
+     (.err .syntaxErr, [nB, nA])] := by decide +kernel
+example : renderSeq .runtime exIll 6 [] exIllReqs =
+    [.ok [.start ['d'], .start ['e'], .start ['e'], .text ['B'], .stop ['e'], .stop ['e'], .stop ['d']],
+     .ok [.start ['e'], .text ['B'], .stop ['e']],
+     .ok [.start ['e'], .start ['e'], .text ['B'], .stop ['e'], .stop ['e']]] := by decide +kernel
+/-- the cache-after function agrees with the preparation where it succeeds, and differs from "drop everything"
+where it fails -/
+example : (loadInlC exIll nC .markup []).map (·.1) = [nB] ∧
+    (loadInl exIll nC .markup []).map (fun _ => ()) = .err .syntaxErr ∧
+    (loadInl exIll nA .markup []).map (fun r => r.2.map (·.1)) = .ok ((loadInlC exIll nA .markup []).map (·.1)) := by
+  decide +kernel
 
 /-- `a.html` = `<py:match path="x">[${select('*|text()')}]</py:match><py:match path="y">Y<y/></py:match>
     <x><xi:include href="${h0}"/></x>`, `b.html` = `<y/>`.  The include sits in the content of a matched element:
